@@ -1,9 +1,10 @@
 import CTV.Model.Temporal
+import CTV.Model.TemporalSpec
 /-!
 # C18 — every component draws temporal shard boundaries at the same instants
 
 All conditions are **regenerated** from the Go source on every run (`Gen.validateChainReject*` from
-trillian/ctfe/cert_checker.go, `Gen.indexByDate*`, `Gen.shardIntervalInverted`, `Gen.temporalStep` from
+trillian/ctfe/cert_checker.go, `Gen.indexByDateTakes` / `Gen.indexByDate` (the loop body's verdict per shard, translated whatever its shape; tied to `Spec.*` by `Gen.*_eq_spec`), `Gen.shardIntervalInverted`, `Gen.temporalStep` from
 client/multilog.go, `Gen.temporallyCompatible*` from loglist3/logfilter.go). Instants are `Int`
 nanoseconds (trusted: `time.Time.Before/After/Equal` are the strict order and equality on instants).
 -/
@@ -21,7 +22,7 @@ def admits (w : Shard) (t : Int) : Prop :=
 
 /-- the shard client does not skip interval `w` for `t` -/
 def routes (w : Shard) (t : Int) : Prop :=
-  Gen.indexByDateSkipLower w.1 t = false ∧ Gen.indexByDateSkipUpper w.2 t = false
+  Gen.indexByDateTakes w.1 w.2 t = true
 
 theorem admits_iff (w : Shard) (t : Int) : admits w t ↔ inWin w.1 w.2 t := by
   obtain ⟨lo, up⟩ := w
@@ -30,14 +31,21 @@ theorem admits_iff (w : Shard) (t : Int) : admits w t ↔ inWin w.1 w.2 t := by
 
 theorem routes_iff (w : Shard) (t : Int) : routes w t ↔ inWin w.1 w.2 t := by
   obtain ⟨lo, up⟩ := w
-  unfold routes inWin Gen.indexByDateSkipLower Gen.indexByDateSkipUpper
+  unfold routes inWin
+  rw [Gen.indexByDateTakes_eq_spec]
+  simp only [Spec.indexByDateSkipLower, Spec.indexByDateSkipUpper]
   cases lo <;> cases up <;> simp <;> omega
 
 theorem compat_iff (s l t : Int) : Gen.temporallyCompatible (some (s, l)) t = true ↔ inWin (some s) (some l) t := by
-  unfold Gen.temporallyCompatible Gen.temporallyCompatibleCond inWin
+  unfold Gen.temporallyCompatible
+  rw [Gen.temporallyCompatibleKeeps_eq_spec]
+  unfold Spec.temporallyCompatibleCond inWin
   simp; omega
 
-theorem compat_no_interval (t : Int) : Gen.temporallyCompatible none t = true := rfl
+theorem compat_no_interval (t : Int) : Gen.temporallyCompatible none t = true := by
+  unfold Gen.temporallyCompatible
+  rw [Gen.temporallyCompatibleKeeps_eq_spec]
+  rfl
 
 /-- The three components agree at every instant, for every window (with both bounds present, which is the only
 form the log-list filter has). -/
@@ -221,8 +229,8 @@ theorem span_cover (s0 : Shard) (r : List Shard) (t : Int) (hinv : Gen.shardInte
       · right; exact ⟨by omega, h2⟩
 
 theorem routesB (w : Shard) (t : Int) :
-    (!(Gen.indexByDateSkipLower w.1 t) && !(Gen.indexByDateSkipUpper w.2 t)) = true ↔ inWin w.1 w.2 t := by
-  rw [← routes_iff]; unfold routes; simp
+    Gen.indexByDateTakes w.1 w.2 t = true ↔ inWin w.1 w.2 t := by
+  rw [← routes_iff]; rfl
 
 /-- **Unique shard.** For a shard list accepted at construction and every instant `t`:
 if `t` lies in the overall span, the client routes it to one index `i`, and a log server configured with the window of
@@ -245,9 +253,9 @@ theorem unique_shard (shards : List Shard) (h : newTemporal shards = true) (t : 
     constructor
     · intro hs
       obtain ⟨x, hx, hxw⟩ := hcov.mpr hs
-      have hlt : List.findIdx (fun iv : Shard => !(Gen.indexByDateSkipLower iv.1 t) && !(Gen.indexByDateSkipUpper iv.2 t)) (s0 :: r) < (s0 :: r).length :=
+      have hlt : List.findIdx (fun iv : Shard => Gen.indexByDateTakes iv.1 iv.2 t) (s0 :: r) < (s0 :: r).length :=
         List.findIdx_lt_length_of_exists ⟨x, hx, (routesB x t).mpr hxw⟩
-      refine ⟨List.findIdx (fun iv : Shard => !(Gen.indexByDateSkipLower iv.1 t) && !(Gen.indexByDateSkipUpper iv.2 t)) (s0 :: r), by simp only [hlt, if_true], ?_⟩
+      refine ⟨List.findIdx (fun iv : Shard => Gen.indexByDateTakes iv.1 iv.2 t) (s0 :: r), by simp only [hlt, if_true], ?_⟩
       intro j w hj
       rw [admits_iff]
       have hi := List.findIdx_getElem (w := hlt)
@@ -255,11 +263,11 @@ theorem unique_shard (shards : List Shard) (h : newTemporal shards = true) (t : 
       constructor
       · intro hw
         obtain ⟨hjl, hjw⟩ := List.getElem?_eq_some_iff.mp hj
-        rcases Nat.lt_trichotomy j (List.findIdx (fun iv : Shard => !(Gen.indexByDateSkipLower iv.1 t) && !(Gen.indexByDateSkipUpper iv.2 t)) (s0 :: r)) with hlt' | heq | hgt
+        rcases Nat.lt_trichotomy j (List.findIdx (fun iv : Shard => Gen.indexByDateTakes iv.1 iv.2 t) (s0 :: r)) with hlt' | heq | hgt
         · have := List.not_of_lt_findIdx hlt'
           rw [hjw] at this
           have h2 := (routesB w t).mpr hw
-          have h3 : (!Gen.indexByDateSkipLower w.1 t && !Gen.indexByDateSkipUpper w.2 t) = false := this
+          have h3 : Gen.indexByDateTakes w.1 w.2 t = false := this
           rw [h3] at h2
           exact absurd h2 (by decide)
         · exact heq
@@ -273,7 +281,7 @@ theorem unique_shard (shards : List Shard) (h : newTemporal shards = true) (t : 
     · intro hns
       have hnone : ∀ x ∈ s0 :: r, ¬ inWin x.1 x.2 t := fun x hx hw => hns (hcov.mp ⟨x, hx, hw⟩)
       constructor
-      · have : List.findIdx (fun iv : Shard => !(Gen.indexByDateSkipLower iv.1 t) && !(Gen.indexByDateSkipUpper iv.2 t)) (s0 :: r) = (s0 :: r).length := by
+      · have : List.findIdx (fun iv : Shard => Gen.indexByDateTakes iv.1 iv.2 t) (s0 :: r) = (s0 :: r).length := by
           rw [List.findIdx_eq_length]
           intro x hx
           have := hnone x hx
